@@ -27,6 +27,7 @@ type c41World struct {
 	rl         *ResourceLimiter
 	ran        map[int]int // request id -> number of times execute() started
 	finished   map[int]bool
+	rejectedAt map[int]time.Time // request id -> fake time at which its caller got an error with the request not run
 	inFlight   map[BucketType]int
 	maxSeen    map[BucketType]int
 	heavyMax   int64
@@ -91,6 +92,17 @@ func (w *c41World) caller(name string, n int) {
 			// runs in the caller's goroutine (direct) or in the queue worker's
 			w.ran[id]++
 			r.OracleEvals++
+			if t, left := w.rejectedAt[id]; left {
+				// "not run at all with its caller getting an error": the caller was already answered with
+				// an error. At the same fake instant this is the known hand-off race (the worker had
+				// passed its expiry check when the caller left); strictly later it is a request that
+				// stayed runnable after its caller was told it would not run.
+				if time.Now().After(t) {
+					r.SetViolation("ran-after-caller-got-error", bucket.String()+":execution-started-later", fmt.Sprintf("request %d (%s) started executing %v after its caller had been answered with an error without it having run", id, bucket, time.Since(t)))
+				} else {
+					r.SetViolation("ran-but-caller-got-other-result", bucket.String()+":caller-left-while-request-owned-by-worker", fmt.Sprintf("request %d (%s) started executing at the instant its caller was answered with an error", id, bucket))
+				}
+			}
 			if w.ran[id] > 1 {
 				r.SetViolation("executed-twice", bucket.String(), fmt.Sprintf("request %d (%s) was executed %d times", id, bucket, w.ran[id]))
 			}
@@ -133,6 +145,7 @@ func (w *c41World) caller(name string, n int) {
 				r.SetViolation("not-run-but-no-error", bucket.String(), fmt.Sprintf("request %d was never executed but its caller got %v", id, err))
 				return
 			}
+			w.rejectedAt[id] = time.Now()
 			r.Op("acquire", "rejected")
 		case ran == 1:
 			if !isResult || res.id != id {
@@ -158,7 +171,7 @@ func c41PhaseUnused(finished bool) string {
 
 func runC41(r *simrt.Run) {
 	inBubble(r, func(s *simrt.Sched) {
-		w := &c41World{r: r, ran: map[int]int{}, finished: map[int]bool{}, inFlight: map[BucketType]int{}, maxSeen: map[BucketType]int{}}
+		w := &c41World{r: r, ran: map[int]int{}, finished: map[int]bool{}, rejectedAt: map[int]time.Time{}, inFlight: map[BucketType]int{}, maxSeen: map[BucketType]int{}}
 		w.heavyMax = int64(1 + r.Draw("cfg", 2))
 		w.normalMax = int64(1 + r.Draw("cfg", 4))
 		w.queueSize = 1 + r.Draw("cfg", 3)
